@@ -1,8 +1,11 @@
 --------------------------- MODULE Gen_ExecManager ---------------------------
 (* Scenario generation for the C07 harness: batches of requests with the      *)
 (* client's scripted behaviour, printed as JSON, one line per scenario        *)
-(*   {"T":.., "shut": -1|instant, "reqs":[{id,k,at,d,res,inst,side,price,qty, *)
-(*    b,fill}, ..]}      (requests with equal `at` are injected in list order)*)
+(*   {"T":.., "shut": -1|instant, "stall": []|[from,to], "reqs":[{id,k,at,d,  *)
+(*    res,inst,side,price,qty,b,fill}, ..]}                                   *)
+(*   (requests with equal `at` are injected in list order; `stall`: at `from`,*)
+(*    the last arrival instant, the clock jumps to `to` without the manager   *)
+(*    being scheduled - the spec's Stall(to))                                 *)
 (* Every request of a scenario is a script of ExecManager (IsScript), i.e. a  *)
 (* value Accept may choose.                                                   *)
 (*  GSpecT (exhaustive): every batch of N \in NS requests over                *)
@@ -14,10 +17,14 @@
 (*         with RandomElement, optionally a Shutdown instant.                 *)
 EXTENDS ExecManager, Json
 CONSTANTS NS,      \* batch sizes
-          SHUT     \* shutdown instants GSpecR draws from (values >= 9000: no shutdown)
-VARIABLES scn, n, shut, done
+          SHUT,    \* shutdown instants GSpecR draws from (values >= 9000: no shutdown)
+          STALLOFF \* lengths of the stall after the last arrival (0 or >= 9000: no stall)
+VARIABLES scn, n, shut, stall, done
 
-gvars == <<now, running, req, pending, out, scn, n, shut, done>>
+gvars == <<now, running, req, pending, out, lagged, scn, n, shut, stall, done>>
+
+LastArrival(sq) == CHOOSE t \in {sq[i].at : i \in 1..Len(sq)} : \A i \in 1..Len(sq) : sq[i].at <= t
+StallOf(sq, o) == IF o = 0 \/ o >= 9000 THEN <<>> ELSE <<LastArrival(sq), LastArrival(sq) + o>>
 
 \* bare choices <<kind, at, delay, result, fill class>>
 Bare ==
@@ -40,17 +47,20 @@ Mk(i, c) ==
           side |-> "none", price |-> 0, qty |-> 0, b |-> "none", fill |-> 0]
 
 Idle == /\ now = 0 /\ running = TRUE /\ req = [r \in REQ |-> NoReq] /\ pending = {} /\ out = <<>>
+        /\ lagged = {}
 
 GInitT == /\ Idle
           /\ n \in NS
           /\ scn \in {[i \in 1..n |-> Mk(i, c[i])] : c \in [1..n -> Bare]}
           /\ shut = -1
+          /\ stall \in {StallOf(scn, o) : o \in STALLOFF}
           /\ done = FALSE
 
 GInitR == /\ Idle
           /\ n = 0
           /\ scn = <<>>
           /\ shut = -1
+          /\ stall = <<>>
           /\ done = FALSE
 
 \* every draw is bound once through a singleton set (a LET would re-draw at each reference)
@@ -64,7 +74,7 @@ RandScript(i, k, t, d, okerr, q, in, sd, p, bn, f) ==
 
 GSize == /\ ~done /\ n = 0
          /\ \E m \in {RandomElement(NS)} : n' = m
-         /\ UNCHANGED <<now, running, req, pending, out, scn, shut, done>>
+         /\ UNCHANGED <<now, running, req, pending, out, lagged, scn, shut, stall, done>>
 
 GDraw == /\ ~done /\ n > 0 /\ Len(scn) < n
          /\ \E k \in {RandomElement({"open", "cancel"})}, t \in {RandomElement(ACCEPT)},
@@ -73,16 +83,19 @@ GDraw == /\ ~done /\ n > 0 /\ Len(scn) < n
                p \in {RandomElement(PRICE)}, bn \in {RandomElement(BUNDLE)}, fc \in {RandomElement(0..2)} :
                \E f \in {IF fc = 0 THEN 0 ELSE IF fc = 1 THEN q ELSE RandomElement(0..q)} :
                   scn' = Append(scn, RandScript(Len(scn) + 1, k, t, d, okerr, q, in, sd, p, bn, f))
-         /\ UNCHANGED <<now, running, req, pending, out, n, shut, done>>
+         /\ UNCHANGED <<now, running, req, pending, out, lagged, n, shut, stall, done>>
 
 GFinishR == /\ ~done /\ n > 0 /\ Len(scn) = n
-            /\ \E x \in {RandomElement(SHUT)} : shut' = IF x >= 9000 THEN -1 ELSE x
+            /\ \E x \in {RandomElement(SHUT)}, o \in {RandomElement(STALLOFF)} :
+                  \* a batch is either stalled or shut down (or neither)
+                  /\ stall' = StallOf(scn, o)
+                  /\ shut' = IF x >= 9000 \/ StallOf(scn, o) # <<>> THEN -1 ELSE x
             /\ done' = TRUE
-            /\ UNCHANGED <<now, running, req, pending, out, scn, n>>
+            /\ UNCHANGED <<now, running, req, pending, out, lagged, scn, n>>
 
 GFinishT == /\ ~done
             /\ done' = TRUE
-            /\ UNCHANGED <<now, running, req, pending, out, scn, n, shut>>
+            /\ UNCHANGED <<now, running, req, pending, out, lagged, scn, n, shut, stall>>
 
 GSpecT == GInitT /\ [][GFinishT]_gvars
 GSpecR == GInitR /\ [][GSize \/ GDraw \/ GFinishR]_gvars
@@ -92,5 +105,5 @@ Script(s) == [k |-> s.k, at |-> s.at, d |-> s.d, res |-> s.res, inst |-> s.inst,
               price |-> s.price, qty |-> s.qty, b |-> s.b, fill |-> s.fill]
 WellFormed == \A i \in 1..Len(scn) : IsScript(Script(scn[i]), scn[i].at)
 
-PrintScn == done => PrintT(<<"SCN", ToJson([T |-> T, shut |-> shut, reqs |-> scn])>>)
+PrintScn == done => PrintT(<<"SCN", ToJson([T |-> T, shut |-> shut, stall |-> stall, reqs |-> scn])>>)
 =============================================================================
